@@ -3,6 +3,7 @@ package c07
 import (
 	"encoding/json"
 	"fmt"
+	"io"
 	"os"
 	"path/filepath"
 	"strings"
@@ -173,6 +174,28 @@ func ReadTrace(path string) (lines []TraceLine, crashed string) {
 		lines = append(lines, t)
 	}
 	return lines, crashed
+}
+
+// PrivateBin copies the running executable image into dir and returns the
+// path of the copy. Children are started from it so that a rebuild of
+// bin/vcheck by somebody else during a run cannot change (or remove) the code
+// the children execute.
+func PrivateBin(dir string) (string, error) {
+	src, err := os.Open("/proc/self/exe")
+	if err != nil {
+		return "", err
+	}
+	defer src.Close()
+	dst := filepath.Join(dir, "vcheck-private")
+	out, err := os.OpenFile(dst, os.O_CREATE|os.O_WRONLY|os.O_TRUNC, 0755)
+	if err != nil {
+		return "", err
+	}
+	if _, err := io.Copy(out, src); err != nil {
+		out.Close()
+		return "", err
+	}
+	return dst, out.Close()
 }
 
 // Tail returns the last n bytes of a log file.
